@@ -63,21 +63,27 @@ class FakePath:
 
 
 class FakeFile:
+    """a file object refers to the inode it opened (a rename moves the inode, later writes still go there);
+    in the buffered model written data reaches the inode only when the file is closed"""
     def __init__(self, fs, path, mode):
         self.fs, self.path, self.mode = fs, path, mode
+        self.inode = fs.files[path]
+        self.buf = []
         self.closed = False
 
     def write(self, chunk):
         if self.fs.op('write'):
-            self.fs.files[self.path].append(chunk)
+            (self.buf if self.fs.buffered else self.inode).append(chunk)
 
     def chunks(self):
-        return list(self.fs.files[self.path])
+        return list(self.inode)
 
     def close(self):
         if not self.closed:
             self.closed = True
-            self.fs.op('close')
+            if self.fs.op('close'):      # flush: a crash or an I/O error here loses what is still buffered
+                self.inode.extend(self.buf)
+            self.buf = []
 
     def __enter__(self):
         return self
@@ -97,6 +103,7 @@ class FS:
         self.mode = None
         self.dead = False
         self.oplog = []
+        self.buffered = False
 
     def op(self, name):
         """returns True if the operation takes effect"""
@@ -249,6 +256,7 @@ def cases(tier):
 def run_fault(env, p):
     """a crash or an I/O error at any operation of a save"""
     fs = FS()
+    fs.buffered = bool(env.choice('buffered', 2))     # write-through or data reaching the disk at close only
     setup(env, fs)
     srv, mod, wlog = make_module(fs)
     mod.writeInitParams()
@@ -312,6 +320,7 @@ def run_fault(env, p):
 def run_fault_initial(env, p):
     """fault during the very first save (module creation)"""
     fs = FS()
+    fs.buffered = bool(env.choice('buffered', 2))     # write-through or data reaching the disk at close only
     setup(env, fs)
     fs.armed, fs.n, fs.mode = True, 0, p['mode']
     fs.fail_at = env.choice('failop', 9)
